@@ -229,6 +229,23 @@ def run(rep, tier, seed, pa):
                  nontrivial_key=repr(desc2) if nontriv else None)
         for key, what in bad:
             rep.violation(key, desc2, what)
+    # scripted witnesses of the split fallback: a unit too short to be cut where the draw falls is left as it was
+    # (first piece too short / second piece too short after the first was added - the defect repaired by the fix commit)
+    for label, cutv in (("second-piece-too-short", 9e-7), ("first-piece-too-short", 5e-5 - 4e-7)):
+        wref = pa.Continuum()
+        wref.add("Ref", Segment(0.0, 5e-5), "A")
+        tool = CST(0.4, wref)          # int(0.4 * 2.5 * 1) = 1 round
+        try:
+            with Draws(script=[("randint", 0), ("uniform", cutv)]) as dr:
+                out = tool.corpus_shuffle(["x"], split=True)
+            got = [(u.segment.start, u.segment.end, u.annotation) for u in out["x"]]
+        except Exception as e:
+            got = "raised %r" % (e,)
+        rep.count("scripted_split_fallback")
+        rep.case(sample={"scripted": label, "result": got})
+        if got != [(0.0, 5e-5, "A")]:
+            rep.violation("confinement:split", {"units": [[(0.0, 5e-5, "A")]], "magnitude": 0.4, "script": [("randint", 0), ("uniform", cutv)], "result": got},
+                          "a unit that cannot be split at %r (%s) is not left as it was: %r" % (cutv, label, got))
     sample = [l for l in lines if len(l) < 500][:6]
     coq = coq_eval(sample)
     oc = run_model(sample)
